@@ -144,9 +144,23 @@ def blocks(lib_spec):
     return [block(s) for s in lib_spec]
 
 
-def library(lib_spec):
+_SUB = {}
+
+
+def library(lib_spec, sub=False):
+    """sub=True: every live Entry / String is an instance of a user-defined subclass of its class (an application's own
+    `class Article(Entry)`): to the library and to every middleware it is an Entry / a String like any other"""
     from bibtexparser.library import Library
-    return Library(blocks(lib_spec))
+    bs = blocks(lib_spec)
+    if sub:
+        from bibtexparser import model as M
+        for base in (M.Entry, M.String):
+            if base not in _SUB:
+                _SUB[base] = type("My" + base.__name__, (base,), {})
+        for b in bs:
+            if type(b) in _SUB:
+                b.__class__ = _SUB[type(b)]
+    return Library(bs)
 
 
 def spec_text(lib_spec):
